@@ -9,9 +9,9 @@ class C02(Prop):
     title = "Session lifecycle for N UEs: establish, service request, release, deregister"
     lean_module = "Stgutg.Props.C02"
     extra_modules = ["Stgutg.Proofs.BuildersLife", "Stgutg.Props.C02Steps", "Stgutg.Props.C02Life", "Stgutg.Props.C02History",
-                     "Stgutg.Props.C02Script", "Stgutg.Proofs.EmulatorLife", "Stgutg.Props.C02Accepted", "Stgutg.Props.C02Traffic"]
-    gen = ["schema", "registry", "templates", "nasie", "naslayout", "nassetters", "extract", "script", "tables", "traffic"]
-    theorems = ["Stgutg.Props.C02Traffic." + t for t in [
+                     "Stgutg.Props.C02Script", "Stgutg.Proofs.EmulatorLife", "Stgutg.Props.C02Accepted", "Stgutg.Props.C02Traffic", "Stgutg.Proofs.GenTieMin"]
+    gen = ["schema", "registry", "templates", "nasie", "naslayout", "nassetters", "extract", "script", "tables", "traffic", "pure-min"]
+    theorems = ["Stgutg.Proofs.GenTie.Min.Min_eq"] + ["Stgutg.Props.C02Traffic." + t for t in [
         # the traffic-mode branch of main (not runnable here: XDP) makes the calls of test mode with counts (N, N, 0, N, N)
         "C02_traffic_structure", "C02_traffic_calls", "C02_traffic_no_trap", "test_mode_skeleton", "C02_traffic_is_test_mode",
         "C02_traffic_dataplane"]] + ["Stgutg.Props.C02." + t for t in [
@@ -54,7 +54,10 @@ class C02(Prop):
             "clauses of TS 24.501 7.3.1/7.3.2, prerequisite order, COUNT strictly increasing and never reused, MAC, reported = "
             "assigned, expected number of procedures. non-trivial = a run that set up at least one session (a PDU SESSION RESOURCE "
             "SETUP RESPONSE was sent); distinct by op line")
-    trusted_base = list(__import__("vlib.props_C01", fromlist=["C01"]).C01.trusted_base)
+    trusted_base = list(__import__("vlib.props_C01", fromlist=["C01"]).C01.trusted_base) + [
+        "TIE BY TRANSLATION (gen pure-min -> lean/Stgutg/Gen/PureMin.lean, regenerated from the source text of stgutg.Min on every run): "
+        "GenTie.Min.Min_eq proves generated definition = Model.FailStop.goMin (the clamp the C02 theorems use) for all integers; trusted "
+        "instead of sampling: the grammar of harness/cmd/gen/pure*.go and its runtime Gen/PureRt.lean"]
     assumptions = ["the peer answers every read with a decodable NGAP message of the expected type (fail-stop behaviour is C19); "
                    "the setup request's item carries a DL NAS TRANSPORT[PDU SESSION ESTABLISHMENT ACCEPT] with an IPv4 address and "
                    "a transfer with a GTP tunnel (C12's domain)",
